@@ -134,6 +134,8 @@ def smemsVerdict (seqs : List (List Nat)) (k l : Nat) (p : List Nat) (out : Stri
             ++ tagIf (seqs.length ≥ 2) "multi" ++ tagIf (k > 64) "k>64" ++ tagIf (k ≤ 64) "k<=64"
             ++ tagIf (perI.any (fun r => r.any (fun o => o.fhi - o.flo ≥ 2))) "multi-occ"
             ++ (if sweepAgrees T sa p l perI all then " smems-model=impl" else " drift-smems")
+            -- some `pattern[i]` does not occur: `smems` extends the empty `init_interval_with(pattern[i])`
+            ++ tagIf (p.any (fun c => !T.contains c)) "dead-start"
             -- the decidable hypotheses of `smems_bi_model_correct` / `…_of_checkSA` on this case
             ++ (if LF.sortedAllB T sa then " lf-sorted" else " not-lf-sorted")
             ++ (if checkSA T sa then " c03-accepts-sa" else " c03-rejects-sa")
